@@ -43,6 +43,12 @@ def make_cases(run):
     cases.append(("b:no-include-disallowed", [two] + full + ["shmem 1"], "boundary"))
     cases.append(("b:stale-caches", ["flags 1", two] + full + ["pre robj 1001 0 0", "shmem 0"], "boundary"))
     cases.append(("b:plain-pu1", ["src synthetic pu:1", "shmem 0"], "boundary"))
+    # level arrays: 16, 17, 18, 32, 33 levels at load, and the 17th / 33rd level created by a Group insertion after load
+    for g in (14, 15, 16, 30, 31):
+        cases.append(("b:levels%d-at-load" % (g + 2), ["flags 1", "src synthchain %d" % g, "shmem 1"], "boundary"))
+    for g0 in (15, 31):
+        npu = g0 + 2
+        cases.append(("b:levels%d-by-insertion" % (g0 + 2), ["src synthetic pu:%d" % npu] + ["pre gobj 1004 0 %d" % j for j in range(npu - 2, npu - 2 - g0, -1)] + ["shmem 0"], "boundary"))
     # XML carrying a <support> element for every support field, loaded with IMPORT_SUPPORT (not this system)
     cases.append(("b:imported-support", ["flags 9", "src synthsupport pack:2 [numa(memory=1024)] core:2 pu:2", "pre mseti 2 0 1001 0 300", "pre distadd 1004 4 5 0 1", "shmem 1"], "boundary"))
     cases.append(("b:imported-support-republish", ["flags 8", "src synthsupport pu:4", "republish 0 3"], "republish"))
@@ -96,8 +102,11 @@ def run_shard(exe, drv, part, lo):
 def run_cases(cases, exe, drv, shard=4):
     results, expect = {}, {"call": {}, "reject": {}}
     with cf.ThreadPoolExecutor(max_workers=C.NCPU) as ex:
-        futs = [(ex.submit(run_shard, exe, drv, cases[lo:lo + shard], lo), lo) for lo in range(0, len(cases), shard)]
-        for f, lo in futs:
+        todo = [(lo, min(lo + shard, len(cases))) for lo in range(0, len(cases), shard)]
+        while todo:
+          futs = [(ex.submit(run_shard, exe, drv, cases[lo:hi], lo), hi) for lo, hi in todo]
+          todo = []
+          for f, hi in futs:
             lo, rc, txt, err, rc2, err2 = f.result()
             cur = None
             for line in txt.split("\n"):
@@ -111,9 +120,11 @@ def run_cases(cases, exe, drv, shard=4):
                 elif cur is not None:
                     results[cur]["lines"].append(line)
             if rc != 0 or rc2 != 0:
-                last = max([i for i in results if lo <= i < lo + shard], default=lo)
+                last = max([i for i in results if lo <= i < hi], default=lo)
                 results.setdefault(last, {"lines": []})
                 results[last]["crash"] = "harness rc=%d driver rc=%d\n%s\n%s" % (rc, rc2, err[-3000:], err2[-1000:])
+                if last + 1 < hi:
+                    todo.append((last + 1, hi))      # the cases after the one that died
     return results, expect
 
 
@@ -218,7 +229,8 @@ def findings_of(r, expect, cfg_lines):
         elif l.startswith("destroyed ") and "unmapped=yes" not in l:
             out.append(("destroy-leaves-mapping", l, False))
     if "crash" in r:
-        out.append(("crash", "harness crash / sanitizer report:\n" + r["crash"][-2500:], False))
+        from checks.c12 import crash_key
+        out.append((crash_key(r["crash"]), "harness crash / sanitizer report:\n" + r["crash"][-2500:], False))
     return out
 
 
